@@ -11,21 +11,25 @@ TABLE = [  # (commit, checks expected to fire, what)
     ("1d74d184", ["C12"], "apply_isospin copy"), ("d2f563b8", ["C15"], "empty kinematics"), ("f8b773eb", ["C15"], "re-dump of loaded output"),
     ("8e2437cd", ["C03"], "N3LO ns loc 0.5"), ("0ecc585d", ["C03"], "scalar spline"), ("503e2e64", ["C03", "C05"], "pqq0_2_loc"),
     ("306b6661", ["C10"], "TMC h3"), ("54d698de", ["C10"], "TMC g1 k1"), ("34ee95b8", ["C10"], "TMC g1 2x"),
-    ("c6c382ff", ["C16"], "check_kinematics"), ("f62435bb", ["C16"], "TMC map"), ("52cdf90f", ["C16"], "dispatch errors"),
-    ("628c815a", ["C18"], "fl_cc loc args"), ("93283357", ["C08"], "missing asy weights"), ("d8ec27c4", ["C08"], "FL Adler"),
+    ("c6c382ff+ab47799e", ["C16"], "check_kinematics (+XS use of it)"), ("ab47799e", ["C16"], "XS kinematics first"), ("f62435bb", ["C16"], "TMC map"), ("52cdf90f", ["C16"], "dispatch errors"),
+    ("628c815a", ["C18"], "fl_cc loc args"), ("93283357", ["C08"], "missing asy weights"), ("d8ec27c4", ["C08"], "FL Adler"), ("dd5ce457", ["C01"], "threshold kink break point"),
 ]
 tier = sys.argv[1] if len(sys.argv) > 1 else "quick"
 only = sys.argv[2:]
 ok = True
 rows = []
 for commit, checks, what in TABLE:
-    if only and not any(commit.startswith(o) for o in only):
+    if only and not any(commit.startswith(o) or o in commit for o in only):
         continue
     d = tempfile.mkdtemp(prefix="vself.", dir="/tmp")
     try:
         subprocess.run(["rsync", "-a", "--exclude", "__pycache__", "/repo/src", d + "/"], check=True)
-        diff = subprocess.run(["git", "-C", "/repo", "diff", f"{commit}^", commit, "--", "src"], capture_output=True, text=True, check=True).stdout
-        p = subprocess.run(["git", "apply", "-R"], input=diff, text=True, cwd=d, capture_output=True)
+        p = None
+        for one in commit.split("+")[::-1]:  # "a+b": revert b first, then a (b builds on a)
+            diff = subprocess.run(["git", "-C", "/repo", "diff", f"{one}^", one, "--", "src"], capture_output=True, text=True, check=True).stdout
+            p = subprocess.run(["git", "apply", "-R"], input=diff, text=True, cwd=d, capture_output=True)
+            if p.returncode != 0:
+                break
         if p.returncode != 0:
             rows.append((commit, what, "does not revert cleanly (later commit touches the same lines)", None))
             continue
